@@ -73,8 +73,8 @@ CHECKS = {
    ref='7 (C20)'),
  'C03': dict(
    cat='proof',
-   text='Row-level theorems for every reachable state, configuration, clock value and volume oracle: rowids strictly ascending for every history (insertion order = iteration order, replacing keeps the position), count = number of rows, and the removal clause: the lazy cull removes only passed rows or, under an evicting policy, rows once volume >= size_limit; set removes no other key except through that cull; get/contains/touch remove nothing; delete/pop remove exactly the one live item their key addresses. The whole-state dictionary laws are proved for every state satisfying the invariant Sinv (rowids ascending and positive, keys unique, file references unique/resolving/of the recorded size, no orphan file, counters), which is proved for every history from the empty cache: get-after-set (value, expiry, tag; or removed by that write's own cull), no shadowing between distinct keys (set/delete/pop/touch/incr), absent after delete/pop, add = set on an absent or dead key, incr after set, iteration = insertion order for every table size with len = number of rows, set keeps the position of an existing key and appends a new one. Lookup clauses are C04, value/key clauses C01/C02. Tie: SQL/guard translator with bridge lemmas + three-way differential run (implementation, plain-Python reference dictionary, Coq row model) with the table compared after every call, exhaustive short sequences and histories crossing the 100-row page size.',
-   note='Trusted: Coq kernel; relational SQL model; control skeleton of Cache.v pinned by translator templates and validated after every call. The exact (non-disjunctive) forms of get-after-set/no-shadowing assume cull_limit = 0 (the lazy cull really can remove another key's expired or evicted item; the general forms carry that disjunct). Sinv for histories containing push assumes the pushed key is fresh (queue key theory: C10). iterkeys (sorted order) is monitored, not proved. incr on float values is outside the model (kept out of generated histories).',
+   text='Row-level theorems for every reachable state, configuration, clock value and volume oracle: rowids strictly ascending for every history (insertion order = iteration order, replacing keeps the position), count = number of rows, and the removal clause: the lazy cull removes only passed rows or, under an evicting policy, rows once volume >= size_limit; set removes no other key except through that cull; get/contains/touch remove nothing; delete/pop remove exactly the one live item their key addresses. The whole-state dictionary laws are proved for every state satisfying the invariant Sinv (rowids ascending and positive, keys unique, file references unique/resolving/of the recorded size, no orphan file, counters), which is proved for every history from the empty cache: get-after-set (value, expiry, tag; or removed by the own cull of that write), no shadowing between distinct keys (set/delete/pop/touch/incr), absent after delete/pop, add = set on an absent or dead key, incr after set, iteration = insertion order for every table size with len = number of rows, set keeps the position of an existing key and appends a new one. Lookup clauses are C04, value/key clauses C01/C02. Tie: SQL/guard translator with bridge lemmas + three-way differential run (implementation, plain-Python reference dictionary, Coq row model) with the table compared after every call, exhaustive short sequences and histories crossing the 100-row page size.',
+   note='Trusted: Coq kernel; relational SQL model; control skeleton of Cache.v pinned by translator templates and validated after every call. The exact (non-disjunctive) forms of get-after-set/no-shadowing assume cull_limit = 0 (the lazy cull really can remove an expired or evicted item of another key; the general forms carry that disjunct). Sinv for histories containing push assumes the pushed key is fresh (queue key theory: C10). iterkeys (sorted order) is monitored, not proved. incr on float values is outside the model (kept out of generated histories).',
    tech='Coq proof (generic invariant closure over operation skeletons, bridge lemmas, rowid uniqueness) + generated model + three-way differential testing',
    ref='7 (C03)'),
  'C09': dict(
